@@ -43,7 +43,7 @@ ASSUMPTIONS = [
     "hash collisions between unequal values are neither required nor forbidden",
 ]
 
-QUOTES = "'\"\\{}%$"       # quotes, backslash, and what str.format / % / Template treat specially
+QUOTES = "'\"\\{}%$+"       # quotes, backslash, and what str.format / % / Template treat specially
 
 
 def is_expr(op):
@@ -192,6 +192,11 @@ def generate(rng, tier):
     yield ["repr", many, "many-runs"]
     yield ["pair", many, many[:20] + many[20:], "many/many"]
     yield ["pair", many, many[:-1], "many/fewer"]
+    for t in ("+", "'+'", "a'+'b", "s = 'a'+'b'", "++", "'", "+'"):
+        yield ["repr", [[t, [0] * 8]], "plus"]
+        yield ["repr", [["a", [2, 0, 0, 0, 0, 0, 0, 0]], [t, [0] * 8], ["b", [5, 0, 0, 0, 0, 0, 0, 0]]], "plus"]
+        yield ["repr", [[t, [0] * 8], ["b", [0, 3, 1, 0, 0, 0, 0, 0]]], "plus"]
+        yield ["repr", [[t, [3, 0, 0, 0, 0, 0, 0, 0]]], "plus"]
     # the documented examples and a few fixed corner cases
     yield ["repr", [["hello", [2, 5, 0, 0, 0, 0, 0, 0]], [" ", [0] * 8], ["there", [5, 2, 0, 0, 0, 0, 0, 0]],
                     ["!", [3, 0, 0, 0, 0, 0, 0, 0]]], "docstring"]
